@@ -67,6 +67,35 @@ CLAIMED = {
     },
 }
 
+T_CPR = ("symbolic execution of the real Python source with z3-backed proxies over mixed integer/real linear arithmetic "
+         "(exact rational constants, cprNL replaced by the staircase extracted from the real function and forked per "
+         "band with model guidance), SMT verdict (unsat) per path against the DO-260B encoder written independently as "
+         "constraints; counterexamples and one rounding-robust sample per path replayed on the unpatched code")
+CLAIMED.update({
+    "C03": {
+        "text": "bounded symbolic checking: for every pair of real positions in one NL band (all 59, both hemispheres, the "
+                "equator straddled) at most 1 NM apart (rational box), encoded by the DO-260B encoder as an even and an "
+                "odd airborne frame, position()/airborne_position() return exactly the newer frame's quantised position "
+                "(within one step of the truth, longitude in [-180,180]) for both argument orders and all time orders; "
+                "cross-band pairs give None or the right position; same parity -> RuntimeError; type-code routing.",
+        "design_ref": "DESIGN.md section 5 C03", "note": NOTE, "technique": T_CPR,
+    },
+    "C04": {
+        "text": "bounded symbolic checking: for every real position (per NL band, hemisphere, parity, airborne/surface) and "
+                "every real reference inside the half-zone box minus one quantisation step (around the circle in "
+                "longitude), position_with_ref() and the two underlying decoders return exactly the encoder's quantised "
+                "position, hence the same value for every admissible reference; type-code routing.",
+        "design_ref": "DESIGN.md section 5 C04", "note": NOTE, "technique": T_CPR,
+    },
+    "C05": {
+        "text": "bounded symbolic checking: for every pair of real surface positions <= 0.2 NM apart (rational box) per NL "
+                "band and every receiver within 45 NM / 44.99 deg of longitude (around the circle, either side of the "
+                "equator), position()/surface_position() return exactly the newer frame's quantised position; "
+                "RuntimeError without a complete reference.",
+        "design_ref": "DESIGN.md section 5 C05", "note": NOTE, "technique": T_CPR,
+    },
+})
+
 NOT_APPLICABLE = {
     "C20": "transcendental float numerics (numpy **, exp, sqrt, arccos on doubles): no SMT theory reaches the stated "
            "quantities; z3 nlsat answers unknown on the tas<->cas inverse identity; see DESIGN.md section 5 C20",
@@ -74,4 +103,4 @@ NOT_APPLICABLE = {
 
 # designed (DESIGN.md section 5) but the harness is not finished: not claimed, never checked with a weaker technique
 NOT_BUILT = {pid: "harness not built yet (DESIGN.md section 7.1 order of construction)" for pid in
-             ["C03", "C04", "C05", "C06", "C12", "C14", "C15", "C16", "C17", "C19"]}
+             ["C06", "C12", "C14", "C15", "C16", "C17", "C19"]}
